@@ -237,8 +237,8 @@ partial def stringIndex : PExp → Bool
   | .un _ e => stringIndex e
   | _ => false
 
-/-- a compound variable whose index is a VARIABLE starting with an underscore (`x_{_i}`): it is printed bare, `x__i`,
-which the grammar reads as the literal name fragment `_i` (`underscore_literal`), not as the variable -/
+/-- (repaired in 7719594, kept as regression detector) a compound variable whose index is a VARIABLE starting with an
+underscore (`x_{_i}`): it was printed bare, `x__i`, which the grammar reads as the literal name fragment `_i` (`underscore_literal`), not as the variable -/
 partial def underscoreVarIndex : PExp → Bool
   | .cvar _ as => as.any (fun | .var n => n.startsWith "_" | e => underscoreVarIndex e)
   | .access _ as | .call _ as | .block _ as => as.any underscoreVarIndex
@@ -250,6 +250,11 @@ partial def underscoreVarIndex : PExp → Bool
 /-- `Debug` of a mixed array: `[Integer(1), Boolean(true)]` (repaired in ceec4dc, kept as regression detector) -/
 def hasDebugArray (d : String) : Bool :=
   ["Integer(", "Boolean(", "Number(", "String(", "PositiveInteger("].any fun k => (d.splitOn k).length > 1
+
+/-- display of a graph whose nodes are all isolated (`Graph {\n    A,\n    B\n}`): every node is an expression, so the
+text is read as the block function `Graph { A, B }` (`block_function` is tried before `primitive`) and refused -/
+def isolatedNodesGraph (d : String) : Bool :=
+  d.startsWith "Graph {" && d != "Graph { }" && !(d.toList.contains '[')
 
 def modelNames (m : PModel) : List String :=
   expNames m.objective
@@ -398,6 +403,7 @@ def checkFormat (before after : Sexp) (idem models graphs : String) : Sexp :=
           | some n => app "violation" [.atom "escaped-simple-variable-with-underscore", .str n]
           | none =>
             let lits := (slots b).foldl (fun acc x => let r := expLiterals x.2; (acc.1 ++ r.1, acc.2 ++ r.2)) (([], []) : List String × List String)
+            if (lits.2.find? isolatedNodesGraph).isSome then app "violation" [.atom "isolated-nodes-graph-read-as-block-function"] else
             match lits.1.find? integralBeyondI64, lits.2.find? hasExponentNumber with
             | some t, _ => app "violation" [.atom "integral-float-beyond-i64-printed-as-integer", .str t]
             | none, some d => app "violation" [.atom "array-number-printed-in-exponent-notation", .str d]
